@@ -211,6 +211,7 @@ func (r Rule) Apply(facts *FactSet, newFacts *FactSet, syms *SymbolTable) error 
 
 	for res := range combinations {
 		if res.error != nil {
+			verifPoint("apply.early")
 			return res.error
 		}
 
@@ -222,6 +223,7 @@ func (r Rule) Apply(facts *FactSet, newFacts *FactSet, syms *SymbolTable) error 
 			}
 			v, ok := res.MatchedVariables[k]
 			if !ok {
+				verifPoint("apply.early")
 				return InvalidRuleError{r, k}
 			}
 
@@ -358,7 +360,9 @@ func (w *World) Run(syms *SymbolTable) error {
 	defer cancel()
 
 	go func() {
+		defer verifPoint("run.exit")
 		for i := 0; i < w.runLimits.maxIterations; i++ {
+			verifPoint("run.iter")
 			select {
 			case <-ctx.Done():
 				return
@@ -370,6 +374,7 @@ func (w *World) Run(syms *SymbolTable) error {
 						return
 					default:
 						if err := r.Apply(w.facts, &newFacts, syms); err != nil {
+							verifPoint("run.send")
 							done <- err
 							return
 						}
@@ -381,17 +386,20 @@ func (w *World) Run(syms *SymbolTable) error {
 
 				newCount := len(*w.facts)
 				if newCount >= w.runLimits.maxFacts {
+					verifPoint("run.send")
 					done <- ErrWorldRunLimitMaxFacts
 					return
 				}
 
 				// last iteration did not generate any new facts, so we can stop here
 				if newCount == prevCount {
+					verifPoint("run.send")
 					done <- nil
 					return
 				}
 			}
 		}
+		verifPoint("run.send")
 		done <- ErrWorldRunLimitMaxIterations
 	}()
 
@@ -495,6 +503,8 @@ func combine(variables MatchedVariables, predicates []Predicate, expressions []E
 		error
 	}) {
 		defer close(c)
+		verifPoint("combine.start")
+		defer verifPoint("combine.exit")
 
 		current := 0
 		indexes := make([]int, len(predicates))
@@ -564,6 +574,7 @@ func combine(variables MatchedVariables, predicates []Predicate, expressions []E
 						res, err := e.Evaluate(complete_vars, syms)
 						if err != nil {
 							fmt.Printf("expression error: %+v", err)
+							verifPoint("combine.send")
 							c <- struct {
 								MatchedVariables
 								error
@@ -579,6 +590,7 @@ func combine(variables MatchedVariables, predicates []Predicate, expressions []E
 
 					if valid {
 						//fmt.Printf("sending valid variables %+v\n", complete_vars)
+						verifPoint("combine.send")
 						c <- struct {
 							MatchedVariables
 							error
